@@ -152,6 +152,7 @@ class Sys:
         self.last_cycle_full_ok = False
         wlog0 = len(f.wlog)
         calls0 = f.calls
+        commanded0 = dict(self.commanded)
         try:
             if ev in ("rb_ok", "rb_fail", "r_ok", "r_fail"):
                 regs = READ_REGS if ev.startswith("rb") else [R0]
@@ -223,6 +224,11 @@ class Sys:
             rec["raised"] = "HardwareLayerException"
         except Exception as e:  # anything else is a defect in its own right
             rec["raised"] = type(e).__name__ + ":" + str(e)[:80]
+        if rec["raised"] and (ev.startswith("wb_") or ev.startswith("w_")):
+            # the decorator refused the write with an exception (Disconnected / Error): the caller knows the value was not
+            # taken, so it does not count as commanded
+            self.commanded = commanded0
+            rec.pop("vals", None)
         rec["post"] = d.state.name
         rec["status"] = str(self.tag.value)
         rec["writes"] = list(f.wlog[wlog0:])
